@@ -49,7 +49,7 @@ ASSUMPTIONS = [
     'scripts are generated only inside explicit transaction blocks and contain no transaction control',
     'edb.schema.utils.find_item_suggestions (error hints) is stubbed out in the harness process for speed',
 ]
-MIN_EVALS = {'quick': 50, 'thorough': 1500}
+MIN_EVALS = {'quick': 200, 'thorough': 5000}
 
 TYPES = ['T0', 'T1', 'T2', 'T3']
 SPS = ['s0', 's1', 's2']
@@ -949,7 +949,7 @@ def _run(rec, case):
 
 def shard(rec, idx, nshards, seed, tier):
     preload()
-    n = 5 if tier == 'quick' else 150
+    n = 16 if tier == 'quick' else 400
     core.run_given(_strategy(), lambda c: _run(rec, c), seed=seed * 1000 + idx,
                    max_examples=n)
 
